@@ -71,6 +71,8 @@ def descriptions(tier, rnd):
     out.append(('```\ndef chk(x):\n    assert x != "bad", "no"\n    return x\n```\nstart = /[a-z]+/ |> `chk`\n', ['ok', 'bad', 'b', '']))
     out.append(('```\ndef dbg(x):\n    return [x, __debug__]\n```\nstart = /[a-z]+/ |> `dbg`\n', ['ok', '']))
     out.append(('```\ndef doc(x):\n    "the docstring"\n    return [x, doc.__doc__]\n```\nstart = /[a-z]+/ |> `doc`\n', ['ok', '']))
+    out.append(('```\nclass Reading:\n    count: int\n    value: float\ndef conv(x):\n    return [Reading.__annotations__["count"](x), conv.__annotations__.get("return", "none") is list]\nconv.__annotations__["return"] = list\n```\nstart = /[0-9]+/ |> `conv`\n', ['7', '12', 'x', '']))
+    out.append(('```\ndef tag(x: int = 3) -> "str":\n    return [x, sorted(tag.__annotations__.items()) == [("return", "str"), ("x", int)]]\n```\nstart = /[a-z]+/ |> `tag`\n', ['ab', '']))
     # anonymous ignore patterns with and without a header
     out.append(('start = W*\nW = /[a-z]+/\nignore /[ ]+/\nignore /#[a-z]*/\n', ['ab cd', 'ab #x cd', ' ab', 'ab#', '']))
     out.append(('ignore /[ ]+/\nclass K { w: /[a-z]+/ }\nstart = K+\n', ['ab cd', ' ab', 'ab  ', '']))
